@@ -58,11 +58,19 @@ def run(ck):
         evlrs = fio.rand_vlrs(ck.rng, True, 1) if cur >= 4 else None
         in_range = ck.rng.random() < 0.55
         las = fio.make_las(ck.rng, cur, src, n, params, vlrs=fio.rand_vlrs(ck.rng, False, 1), evlrs=evlrs)
-        if in_range and n:
-            if src >= 6:
+        if n and src >= 6 and (in_range or ck.rng.random() < 0.5):
+            # each narrower-in-the-target field is brought into range independently, so that every single field gets to
+            # be the only one that does not fit
+            keep = ("all",) if in_range else tuple(f for f in ("classification", "return_number", "number_of_returns") if ck.rng.random() < 0.6)
+            if "all" in keep or "classification" in keep:
                 las.points.array["classification"] &= 31
-                las.points.array["bit_fields"] &= 0x77  # return number / number of returns <= 7
+            if "all" in keep or "return_number" in keep:
+                las.points.array["bit_fields"] &= 0xF7
+            if "all" in keep or "number_of_returns" in keep:
+                las.points.array["bit_fields"] &= 0x7F
+            if "all" in keep:
                 las.points.array["classification_flags"] &= 0xC7  # no overlap bit, scanner channel 0
+            ck.count("fits:" + ",".join(keep))
             las.update_header()
         size_std = laspy.PointFormat(src).size
         raw = las.points.array.tobytes()
@@ -130,6 +138,20 @@ def run(ck):
                         dict(inp, finding_key="C12:extra:" + ("scaled" if p.scales is not None else "plain")))
         if list(out.point_format.extra_dimension_names) != [p.name for p in params]:
             ck.fail("extra dimensions not carried", inp)
+        else:
+            def desc(d):
+                return (d.name, str(d.dtype), d.num_elements, d.description,
+                        None if d.scales is None else np.asarray(d.scales, dtype="f8").tobytes(),
+                        None if d.offsets is None else np.asarray(d.offsets, dtype="f8").tobytes())
+            for da, db in zip(las.point_format.extra_dimensions, out.point_format.extra_dimensions):
+                if desc(da) != desc(db):
+                    ck.fail(f"extra dimension {da.name}: description changed by conversion (type/scales/offsets/text): "
+                            f"scales {da.scales} -> {db.scales}, offsets {da.offsets} -> {db.offsets}", dict(inp, dim=da.name))
+                    break
+                va, vb = np.ascontiguousarray(np.array(las[da.name])), np.ascontiguousarray(np.array(out[da.name]))
+                if va.tobytes() != vb.tobytes():
+                    ck.fail(f"extra dimension {da.name}: presented values changed by conversion: {va.ravel()[:3].tolist()} -> {vb.ravel()[:3].tolist()}", dict(inp, dim=da.name))
+                    break
         if [c08.canon(v) for v in out.vlrs if type(v).__name__ != "ExtraBytesVlr"] != [c08.canon(v) for v in las.vlrs if type(v).__name__ != "ExtraBytesVlr"]:
             ck.fail("VLRs changed by conversion", inp)
         vmin = out.header.version.minor
